@@ -271,10 +271,20 @@ func TestC12_LivenessJailing(t *testing.T) {
 			log = append(log, fmt.Sprintf("h%d:unjail(v%d)=%v", h, x.v.Index, oks[0]))
 			return oks[0]
 		}
+		lastAccepted := map[int]string{}
+		renewalBelowMinimum := false
 		t.Repeat(map[string]func(*rapid.T){
 			"keepAlive": func(t *rapid.T) {
 				x := vals[rapid.IntRange(0, n-1).Draw(t, "val")]
 				ver := rapid.SampledFrom([]string{"v2.0.0", "v1.11.3", "v1.11.2", "v1.0.0", "garbage", "v3.1.4", "2.0.0"}).Draw(t, "version")
+				if last := lastAccepted[x.v.Index]; last != "" && rapid.IntRange(0, 2).Draw(t, "sameVersionAsLastTime") == 0 {
+					// a relayer that is not upgraded keeps announcing the version it was last accepted with, whatever the
+					// minimum has become since
+					ver = last
+					if semverLess(ver, minVersion) {
+						renewalBelowMinimum = true
+					}
+				}
 				h := c.H
 				wasJailed := x.jailed
 				oks := step(t, c.MustSign(x.v.Actor, &vtypes.MsgKeepAlive{Metadata: chain.MD(x.v.Actor), PigeonVersion: ver}))
@@ -283,6 +293,7 @@ func TestC12_LivenessJailing(t *testing.T) {
 						t.Fatalf("keep-alive with relayer version %s accepted, minimum is %s", ver, minVersion)
 					}
 					x.aliveUntil = h + c12TTL
+					lastAccepted[x.v.Index] = ver
 				}
 				_ = wasJailed
 				judge(t, h)
@@ -406,6 +417,47 @@ func TestC12_LivenessJailing(t *testing.T) {
 				log = append(log, fmt.Sprintf("h%d:streakDone(v%d,last sentence %s)", c.H, x.v.Index, x.lastDur))
 				streakDone = true
 			},
+			// the minimum is raised (at once) above the version some relayer was last accepted with, and that relayer -
+			// not upgraded - sends its next keep-alive
+			"raiseAndRenew": func(t *rapid.T) {
+				var cands []*c12Val
+				for _, x := range vals {
+					if last := lastAccepted[x.v.Index]; last != "" && semverLess(last, "v3.1.4") {
+						cands = append(cands, x)
+					}
+				}
+				if len(cands) == 0 {
+					t.Skip("no relayer on record")
+				}
+				x := cands[rapid.IntRange(0, len(cands)-1).Draw(t, "val")]
+				ver := lastAccepted[x.v.Index]
+				var higher []string
+				for _, v := range []string{"v1.12.0", "v2.0.0", "v3.1.4"} {
+					if semverLess(ver, v) {
+						higher = append(higher, v)
+					}
+				}
+				nv := rapid.SampledFrom(higher).Draw(t, "minVersion")
+				cctx, write := c.Ctx().CacheContext()
+				if err := valset.NewValsetProposalHandler(c.App.ValsetKeeper)(cctx, &vtypes.SetPigeonRequirementsProposal{Title: "t", Description: "d", MinVersion: nv}); err == nil {
+					write()
+					if semverLess(minVersion, nv) {
+						minVersion = nv
+					}
+				}
+				log = append(log, fmt.Sprintf("h%d:raiseMinVersion(%s)", c.H, nv))
+				h := c.H
+				oks := step(t, c.MustSign(x.v.Actor, &vtypes.MsgKeepAlive{Metadata: chain.MD(x.v.Actor), PigeonVersion: ver}))
+				renewalBelowMinimum = true
+				if oks[0] {
+					if semverLess(ver, minVersion) {
+						t.Fatalf("keep-alive with relayer version %s accepted, minimum is %s\nhistory: %v", ver, minVersion, log)
+					}
+					x.aliveUntil = h + c12TTL
+				}
+				judge(t, h)
+				log = append(log, fmt.Sprintf("h%d:keepAlive(v%d,%s)=%v", h, x.v.Index, ver, oks[0]))
+			},
 			"setMinVersion": func(t *rapid.T) {
 				ver := rapid.SampledFrom([]string{"v1.11.3", "v1.12.0", "v2.0.0", "v1.0.0", "v0.9.0", "garbage"}).Draw(t, "minVersion")
 				target := uint64(0)
@@ -449,6 +501,9 @@ func TestC12_LivenessJailing(t *testing.T) {
 		sort.Strings(cm)
 		if streakDone {
 			labels = append(labels, "threeJailingsInARow")
+		}
+		if renewalBelowMinimum {
+			labels = append(labels, "sameVersionRenewalBelowRaisedMinimum")
 		}
 		evid.Case(t.Name(), strings.Join(cm, " ")+" | "+strings.Join(log, " "), nt, labels, func() any { return map[string]any{"validators(power,','=address contains 0x2c)": cm, "history": log} })
 	})
